@@ -8,7 +8,4 @@ CONSTANTS
 CONSTRAINT CopyBound
 INVARIANT TypeOK
 INVARIANT ViewShape
-INVARIANT ClipRefines
 INVARIANT Restriction
-INVARIANT QueryMonotone
-INVARIANT InsideIsComplete
